@@ -1130,78 +1130,11 @@ func (w *World) ruleResetFirst(r *Report, rule string) {
 	isReset := func(f *ssa.Function) bool {
 		return f != nil && f.Name() == "Reset" && f.Signature.Recv() != nil && (namedIs(f.Signature.Recv().Type(), hessianPath, "Encoder") || namedIs(f.Signature.Recv().Type(), hessianPath, "Decoder"))
 	}
-	// RBW(f): every call in f that can reach work is RBW itself or dominated by a Reset call.
-	memo := map[*ssa.Function]int{} // 0 unknown, 1 computing, 2 true, 3 false
-	why := map[*ssa.Function]string{}
-	var rbw func(f *ssa.Function) bool
-	rbw = func(f *ssa.Function) bool {
-		switch memo[f] {
-		case 2:
-			return true
-		case 3, 1:
-			return false
-		}
-		memo[f] = 1
-		if work[f] {
-			memo[f] = 3
-			why[f] = "is the value dispatch itself"
-			return false
-		}
-		var resetCalls []*ssa.Call
-		for _, cs := range w.callSitesIn(f) {
-			if isReset(cs.call.Call.StaticCallee()) {
-				resetCalls = append(resetCalls, cs.call)
-			}
-		}
-		okAll := true
-		nWork := 0
-		for _, cs := range w.callSitesIn(f) {
-			var cal *ssa.Function
-			for _, c := range w.calleesOf(cs.call) {
-				if reachesWork[c] && w.inPkg(c) {
-					cal = c
-				}
-			}
-			if cal == nil {
-				continue
-			}
-			nWork++
-			dominated := false
-			for _, rc := range resetCalls {
-				if rc.Block() == cs.call.Block() {
-					for _, in := range rc.Block().Instrs {
-						if in == ssa.Instruction(rc) {
-							dominated = true
-							break
-						}
-						if in == ssa.Instruction(cs.call) {
-							break
-						}
-					}
-				} else if rc.Block().Dominates(cs.call.Block()) {
-					dominated = true
-				}
-			}
-			if dominated {
-				continue
-			}
-			if rbw(cal) {
-				continue
-			}
-			okAll = false
-			why[f] = fmt.Sprintf("the call to %s at %s can reach the value dispatch without a preceding Reset (%s)", fnName(cal), w.instrPos(cs.call), why[cal])
-		}
-		if nWork == 0 {
-			okAll = false
-			why[f] = "does not reach the value dispatch"
-		}
-		if okAll {
-			memo[f] = 2
-			return true
-		}
-		memo[f] = 3
-		return false
-	}
+	// reset-first: on every path each call of the value dispatch is preceded by a
+	// Reset of the same object (rules_resetfirst_px.go)
+	rf := &resetFirst{w: w, work: work, reachesWork: reachesWork, isReset: isReset, memo: map[*ssa.Function]int{}, why: map[*ssa.Function]string{}}
+	rbw := rf.ok
+	why := rf.why
 	n := 0
 	var names []string
 	for _, fn := range w.SrcFuncs() {
@@ -1226,7 +1159,7 @@ func (w *World) ruleResetFirst(r *Report, rule string) {
 		n++
 		names = append(names, fnName(fn))
 		ok := rbw(fn)
-		fact := "every call that reaches the value dispatch is reset-first or dominated by a Reset call"
+		fact := "on every path each call of the value dispatch is preceded by a Reset of the same object (calls not stepped into: reset-first themselves or after a Reset)"
 		if !ok {
 			fact = why[fn]
 		}
